@@ -21,7 +21,7 @@ Theorem recorded_implies_complete : forall ord cs k,
   ord_ok ord ->
   let s := run init (firstn k (snd (do_cmds ord init cs))) in
   st_rec s <> 0 -> durable_complete s (st_rec s).
-Proof. exact recorded_implies_complete_proved. Qed.
+Proof. exact recorded_implies_complete_vs. Qed.
 Print Assumptions recorded_implies_complete.
 
 (* for all programs and all cut points: after the crash the start-up cleanup
@@ -32,7 +32,7 @@ Theorem cleanup_yields_only_complete : forall ord cs k,
   ord_ok ord ->
   let s := run init (firstn k (snd (do_cmds ord init cs))) in
   exists u tr, process_orphans ord (run s [OCrash]) = (u, tr, true) /\ cleanb u = true /\ st_rec u = st_rec s.
-Proof. exact cleanup_yields_only_complete_proved. Qed.
+Proof. exact cleanup_yields_only_complete_vs. Qed.
 Print Assumptions cleanup_yields_only_complete.
 
 (* the same two facts for ANY sequence of operations that respects the guards
@@ -41,20 +41,20 @@ Print Assumptions cleanup_yields_only_complete.
    durable final directory, never remove the recorded directory); the programs
    above are one instance (next theorem) *)
 Theorem guarded_runs_keep_recorded_complete : forall ops k,
-  allowed_run init ops ->
+  allowed_run valid_snap init ops ->
   let s := run init (firstn k ops) in st_rec s <> 0 -> durable_complete s (st_rec s).
-Proof. exact guarded_recorded_implies_complete. Qed.
+Proof. exact guarded_recorded_implies_complete_vs. Qed.
 Print Assumptions guarded_runs_keep_recorded_complete.
 
 Theorem programs_respect_guards : forall ord cs,
-  ord_ok ord -> allowed_run init (snd (do_cmds ord init cs)).
-Proof. exact trace_allowed. Qed.
+  ord_ok ord -> allowed_run valid_snap init (snd (do_cmds ord init cs)).
+Proof. exact trace_allowed_vs. Qed.
 Print Assumptions programs_respect_guards.
 
 (* every allowed operation (crash included) preserves the invariant *)
 Theorem allowed_step_preserves_invariant : forall s o t,
-  Inv s -> allowed s o -> step s o = Some t -> Inv t.
-Proof. exact step_inv. Qed.
+  Inv valid_snap s -> allowed valid_snap s o -> step s o = Some t -> Inv valid_snap t.
+Proof. exact step_inv_vs. Qed.
 Print Assumptions allowed_step_preserves_invariant.
 
 (* the flag file is removed only after the record is durable: in Commit and in
@@ -97,12 +97,12 @@ Print Assumptions finalize_first_wins.
    Hypotheses: a reachable state (J), snapshot i recorded, its file the full
    image (or the state machine already durable at i). *)
 Theorem ondisk_recover_restartable : forall s i load k,
-  J (ds_st s) -> st_rec (ds_st s) = i -> i <> 0 ->
+  J valid_snap (ds_st s) -> st_rec (ds_st s) = i -> i <> 0 ->
   (FullAt i (ds_st s) \/ i <= ds_smd s) ->
   (load = false -> i <= ds_smv s) ->
   let '(_, tr, _) := recover_prog s i load in
   restart_okb (dstep (drun s (firstn k tr)) (DBase OCrash)) = true.
-Proof. exact ondisk_recover_restartable_proved. Qed.
+Proof. exact ondisk_recover_restartable_vs. Qed.
 Print Assumptions ondisk_recover_restartable.
 
 (* a received image with an external file (transport.Chunk.save; which chunks
@@ -113,7 +113,7 @@ Print Assumptions ondisk_recover_restartable.
 Theorem received_files_durable : forall i n m fl,
   let fl' := apply_local (recvx_fs i n m) fl in
   durable_full (FSnap i) fl' /\ durable_full (FOther 1) fl'.
-Proof. exact received_files_durable_proved. Qed.
+Proof. exact received_files_durable_vs. Qed.
 Print Assumptions received_files_durable.
 
 (* an on-disk replica's own snapshot at applied index ap (node.doSave ->
@@ -122,11 +122,11 @@ Print Assumptions received_files_durable.
    every crash cut the replica is restartable, i.e. the recorded snapshot's
    OnDiskIndex never exceeds what the state machine has durably *)
 Theorem ondisk_save_restartable : forall s lr ap k,
-  J (ds_st s) ->
+  J valid_snap (ds_st s) ->
   (st_rec (ds_st s) = 0 \/ FullAt (st_rec (ds_st s)) (ds_st s) \/ st_rec (ds_st s) <= ds_smd s) ->
   let '(_, tr, _) := cmd_save_ondisk s lr ap in
   restart_okb (dstep (drun s (firstn k tr)) (DBase OCrash)) = true.
-Proof. exact ondisk_save_restartable_proved. Qed.
+Proof. exact ondisk_save_restartable_vs. Qed.
 Print Assumptions ondisk_save_restartable.
 
 (* the name codec: for EVERY uint64 snapshot index and EVERY uint64 replica /
@@ -143,11 +143,38 @@ Print Assumptions temp_names_recognised.
 
 (* reachable states satisfy J *)
 Theorem reachable_states_J : forall ord cs s t tr,
-  ord_ok ord -> J s -> do_cmds ord s cs = (t, tr) -> allowed_run s tr /\ t = run s tr /\ J t.
-Proof. exact cmds_ok. Qed.
+  ord_ok ord -> J valid_snap s -> do_cmds ord s cs = (t, tr) ->
+  allowed_run valid_snap s tr /\ t = run s tr /\ J valid_snap t.
+Proof. exact cmds_ok_vs. Qed.
 Print Assumptions reachable_states_J.
 
-(* not proved here: restart_state_ge_recorded_and_acked (needs C04/C08: the state
+(* a replica with a regular (in-memory) state machine comes back no older than
+   the recorded snapshot, which is also everything it acknowledged on the
+   snapshot path (a received snapshot is acknowledged to raft only after the
+   record; entries beyond it are the log's business, C04/C08): for every command
+   sequence without Shrink (node.recover shrinks only for on-disk state machines),
+   every crash cut and every listing order, the start-up cleanup succeeds, keeps
+   the record, and the initial recovery (replayLog ; snapshotter.Load of the
+   recorded file as the process then sees it) succeeds with the state machine
+   at the recorded index: the file it reads is complete AND carries the image *)
+Theorem restart_state_ge_recorded_and_acked : forall ord cs k sv sd,
+  ord_ok ord -> ~ Exists is_shrink cs ->
+  let s := run init (firstn k (snd (do_cmds ord init cs))) in
+  exists u tr, process_orphans ord (run s [OCrash]) = (u, tr, true) /\ st_rec u = st_rec s /\
+    exists t ops, init_recover_reg (mkDS u sv sd) = (t, ops, Done) /\
+                  ds_st t = u /\ (st_rec s <> 0 -> ds_smv t = st_rec s).
+Proof. exact restart_state_ge_recorded_proved. Qed.
+Print Assumptions restart_state_ge_recorded_and_acked.
+
+(* the stronger invariant behind it: without Shrink, every reachable state keeps
+   every (volatile or durable) snapshot file of a final directory a full image *)
+Theorem reachable_states_keep_full_images : forall ord cs s t tr,
+  ord_ok ord -> ~ Exists is_shrink cs -> J full_snap s -> do_cmds ord s cs = (t, tr) ->
+  allowed_run full_snap s tr /\ t = run s tr /\ J full_snap t.
+Proof. exact cmds_ok_fs. Qed.
+Print Assumptions reachable_states_keep_full_images.
+
+(* not proved here: import_rerunnable (tools.ImportSnapshot; C20). Formerly also: restart_state_ge_recorded_and_acked (needs C04/C08: the state
    machine recovered from the recorded snapshot plus the log), import_rerunnable
    (tools.ImportSnapshot is not modelled; DESIGN section 7, O7). *)
 
@@ -223,4 +250,12 @@ Proof. vm_compute. reflexivity. Qed.
 Example name_len_witness :
   (printed_len 10 0 (2 ^ 64 - 1), printed_len 10 0 (10 ^ 16), printed_len 16 16 (2 ^ 64 - 1),
    part_ok 1 16 10 0 (10 ^ 16)) = (20, 17, 16, false).
+Proof. vm_compute. reflexivity. Qed.
+
+(* a regular replica: crash in the middle of a compaction after two snapshots *)
+Example reg_restart_demo :
+  let s := run init (firstn 50 (snd (do_cmds ord_id init [CSave 5 2; CCommit 5; CRecv 9 3; CApply 9; CCompact 5]))) in
+  let '(u, _, ok) := process_orphans ord_id (run s [OCrash]) in
+  let '(t, ops, oc) := init_recover_reg (mkDS u 0 0) in
+  (st_rec s, ok, oc, ds_smv t, ops) = (9, true, Done, 9, [DSmRecover 9]).
 Proof. vm_compute. reflexivity. Qed.
